@@ -356,7 +356,7 @@ def run(tier):
     chk.cov['histories_enumerated_by_tlc'] = len(hists)
     cap = 1500 if tier == 'quick' else 20000
     if len(hists) > cap:
-        hists = rnd.sample(hists, cap)
+        hists = rnd.sample(sorted(hists, key=lambda h_: json.dumps(h_, sort_keys=True)), cap)     # (TLC's output order varies)
     archs = sorted(M.ARCHETYPES)
     jobs = [(a, h_) for h_ in hists for a in archs]
     traces = []
